@@ -10,6 +10,8 @@ for f in sorted(glob.glob(os.path.join(V, "seeded", "*", "meta.json"))):
         res = "not run yet"
     elif cr["violations_reported"] > 0:
         res = "caught (%d violation lines)" % cr["violations_reported"]
+        if cr.get("decided_by") and cr["decided_by"] != m["breaks_property"]:
+            res += " by %s's check (%s's own check is silent by design: honest runs only)" % (cr["decided_by"], m["breaks_property"])
     else:
         res = "MISSED (%s)" % cr["detail"][:40]
     rows.append("| %s | %s | %s | %s |" % (m["id"], m["what"], m["needs_to_manifest"], res))
